@@ -110,7 +110,11 @@ func (l *Logger) ModifyRequest(req *http.Request) error {
 
 	r, err := mv.Reader(opts...)
 	if err != nil {
-		return err
+		// The body is not in the coding it announces. The logger only
+		// observes: log the body as it is instead of failing the exchange.
+		if r, err = mv.Reader(); err != nil {
+			return err
+		}
 	}
 
 	io.Copy(b, r)
@@ -160,7 +164,11 @@ func (l *Logger) ModifyResponse(res *http.Response) error {
 
 	r, err := mv.Reader(opts...)
 	if err != nil {
-		return err
+		// The body is not in the coding it announces. The logger only
+		// observes: log the body as it is instead of failing the exchange.
+		if r, err = mv.Reader(); err != nil {
+			return err
+		}
 	}
 
 	io.Copy(b, r)
